@@ -31,6 +31,16 @@ pub fn apply_tx_batch_impl<C: ContentAddrStore>(
     // apply the stake transactions
     let new_stakes = load_stake_info(this, txx)?;
 
+    // The minimum fee is checked before any covenant is run. What a covenant may cost to execute is bounded by its weight, and
+    // the weight is only paid for through the fee: checked afterwards, a transaction that does not pay could make every
+    // validator run a covenant of 10^14 steps before being refused for its fee.
+    for tx in txx {
+        let min_fee = minimum_fee(tx.weight(covenant_weight_from_bytes), this.fee_multiplier);
+        if tx.fee < min_fee {
+            return Err(StateError::InsufficientFees(min_fee));
+        }
+    }
+
     // check validity of every transaction, with respect to the relevant coins and stakes
     txx.par_iter()
         .try_for_each(|tx| check_tx_validity(this, tx, &relevant_coins, &new_stakes))?;
